@@ -3,3 +3,4 @@ import NautilusVerif.Driver.ShiftD
 import NautilusVerif.Driver.Prior
 import NautilusVerif.Driver.ResampleD
 import NautilusVerif.Driver.UnionD
+import NautilusVerif.Driver.CoreD
